@@ -165,6 +165,16 @@ def run(args):
         if mp_ is None: ck.notes.append(f"canary '{cname}': pattern no longer matches - skipped"); continue
         killed = [n for n, ok, d in frame(mp_) if ok is False]
         ck.self_test(f'canary {cname}', bool(killed), f'killed by {killed[0]}' if killed else 'mutant still passes')
+    # ---- engine A: the only declaration writes of the per-rule logic (extracted blocks, contracts/cli.py): exactly one write, of the API's colour, when a rule
+    # is reported as adjusted; none for readable / attention rules; the at-rule branch only re-serialises after the descent
+    from vf.engine_a import verify_many
+    BL = [f'{CLI}:process_nodes_recursive__coloured_rule', f'{CLI}:process_nodes_recursive__at_rule']
+    ck.absorb_A(verify_many([(q, None) for q in BL], variant='c08'))
+    ck.trust(*TRUSTED)
+    for bq in BL:
+        ex = getattr(prog, 'extracted', {}).get(bq)
+        if ex: ck.notes.append(f"extracted block {bq.split(':')[1]}: lines {ex['lines'][0]}-{ex['lines'][1]} of cli/main.py; dropped by the extraction: {ex['drops']}")
+    ck.assume('engine A on the extracted blocks uses the assumed tinycss2-facing and API-level contracts listed in the evidence of check C08')
     nsheets = 120 if args.tier == 'quick' else 3000
     sheets = H.gen_sheets(20261009, nsheets // 2) + H.gen_sheets(args.seed + 9, nsheets - nsheets // 2)
     # every carry-through construct at once, and an input that is itself named *_cm.css
